@@ -218,7 +218,7 @@ fn core_op(r: &Rec) -> Vec<Vec<i128>> {
 // (the oracle decrypts by itself with the exact products of the model).
 //   header: be n rank ab rb a_k b_k res_k cnv mode | kb dsize dnum k_tsk relb rel_k | seed
 //   5201 tensor (mode 0 apply, 1 add_assign, 2 square) + glwe_tensor_decrypt + glwe_tensor_relinearize + glwe_decrypt
-//        vs = [pt_a limbs, pt_b limbs, prior tensor]      outs = [sk, a.data, b.data, tensor.data, pt_tensor, relin.data, pt_relin, flags]
+//        vs = [pt_a limbs, pt_b limbs, prior tensor]      outs = [sk, a.data, b.data, tensor.data, pt_tensor, relin.data, pt_relin, flags, tensor key]
 //   5202 mul_plain (mode 0) / mul_plain_assign (mode 1) + glwe_decrypt
 //   5203 mul_const (mode 0) / mul_const_assign (mode 1) + glwe_decrypt
 //        vs = [pt_a limbs, b (plaintext limbs | constant limbs), prior res]   outs = [sk, a.data, res.data, pt_res, flags]
@@ -316,8 +316,19 @@ fn l2_op(r: &Rec) -> Vec<Vec<i128>> {
                 });
                 let mut pt_r = GLWEPlaintext::alloc(d(n).into(), d(relb).into(), d(rel_k).into());
                 m.glwe_decrypt(&relin, &mut pt_r, &sk_dft, big_sc.borrow());
+                // the tensor key before preparation, in the order of the model's pmat_of_flat (see relin_op)
+                let mut key_words: Vec<i128> = Vec::new();
+                {
+                    let g = tsk.to_ref();
+                    let pairs = (rank * (rank + 1) / 2).max(1);
+                    for row in 0..dnum { for ci in 0..pairs {
+                        let ct = g.at(row, ci);
+                        let v = ct.data();
+                        for j in 0..v.size() { for c in 0..v.cols() { key_words.extend(v.at(c, j).iter().map(|x| *x as i128)); } }
+                    } }
+                }
                 vec![sk_words, a_words, b_words, to128(&t_words), to128(pt_t.data().raw()), to128(&rl_words), to128(pt_r.data().raw()),
-                     vec![same as i128, same2 as i128]]
+                     vec![same as i128, same2 as i128], key_words]
             }
             5202 | 5203 => {
                 let assign = mode == 1;
@@ -351,9 +362,60 @@ fn l2_op(r: &Rec) -> Vec<Vec<i128>> {
     })
 }
 
+// ------------------------------------------------------------------------------------------------------------------
+// Part 2, level 1: glwe_tensor_relinearize on given limb data (opcode 5108)
+//   header: be n rank ab kb rb a_size res_size dsize dnum msize
+//   vs[0] = tensor.data (radix ab, a_size limbs), vs[1] = tensor key BEFORE preparation, in the order of the model's
+//   Gadget.pmat_of_flat (as harness/src/ks_common.rs::mat_dump): for row, for input column ci : the GLWE (row, ci) limb-major
+//   output = [res.data (radix rb, res_size limbs) ; flags [same]]
+// ------------------------------------------------------------------------------------------------------------------
+fn relin_op(r: &Rec) -> Vec<Vec<i128>> {
+    let p = &r.ps;
+    let u = |i: usize| p[i] as usize;
+    let (be, n, rank) = (p[0], u(1), u(2));
+    let (ab, kb, rb) = (u(3), u(4), u(5));
+    let (a_size, res_size, dsize, dnum, msize) = (u(6), u(7), u(8), u(9), u(10));
+    let d = |x: usize| -> u32 { x as u32 };
+    with_be!(be, BE, {
+        let m = module::<BE>(n);
+        let cols = rank + 1;
+        let pairs = (rank * (rank + 1) / 2).max(1);
+        let mut t = GLWETensor::alloc(d(n).into(), d(ab).into(), d(a_size * ab).into(), d(rank).into());
+        fill_raw(t.data_mut().raw_mut(), &r.vs[0]);
+        let lay = GLWETensorKeyLayout { n: d(n).into(), base2k: d(kb).into(), k: d(msize * kb).into(), rank: d(rank).into(), dnum: d(dnum).into(), dsize: Dsize(d(dsize)) };
+        let mut tsk = GLWETensorKey::alloc_from_infos(&lay);
+        {
+            let mut g = tsk.to_mut();
+            let mut it = r.vs[1].iter();
+            for row in 0..dnum { for ci in 0..pairs {
+                let mut ct = g.at_mut(row, ci);
+                for j in 0..msize { for c in 0..cols {
+                    for x in ct.data_mut().at_mut(c, j).iter_mut() { *x = *it.next().expect("key data too short") as i64; }
+                } }
+            } }
+            assert!(it.next().is_none(), "key data too long");
+        }
+        let mut big_sc = scratch_filled::<BE>(1 << 22, 0);
+        let mut tsk_prep = m.alloc_tensor_key_prepared_from_infos(&lay);
+        m.prepare_tensor_key(&mut tsk_prep, &tsk, big_sc.borrow());
+        let mut res = GLWE::alloc(d(n).into(), d(rb).into(), d(res_size * rb).into(), d(rank).into());
+        let mut outs: Vec<Vec<i64>> = Vec::new();
+        for run in 0..2u64 {
+            let mut g = Rng::new(0xC05E11 ^ (run * 7919) ^ phash(r));
+            let fill = g.next() as i64;
+            for x in res.data_mut().raw_mut().iter_mut() { *x = fill; }
+            let mut sc = scratch_filled::<BE>(m.glwe_tensor_relinearize_tmp_bytes(&res, &t, &lay) + SLACK, fill);
+            m.glwe_tensor_relinearize(&mut res, &t, &tsk_prep, tsk_prep.size(), sc.borrow());
+            outs.push(res.data().raw().to_vec());
+        }
+        let same = outs[0] == outs[1];
+        vec![to128(&outs[0]), vec![same as i128]]
+    })
+}
+
 pub fn exec(r: &Rec) -> Out {
     let r2 = r.clone();
-    guard(move || if r2.code < 5100 { hal_op(&r2) } else if r2.code < 5200 { core_op(&r2) } else { l2_op(&r2) })
+    guard(move || if r2.code < 5100 { hal_op(&r2) } else if r2.code == 5108 { relin_op(&r2) } else if r2.code < 5200 { core_op(&r2) } else { l2_op(&r2) })
 }
 
 /// values with |x| < 2^bits, in classes: random, extreme with aligned signs, alternating, sparse
@@ -534,12 +596,49 @@ fn gen_l2(tier: &str, rng: &mut Rng, out: &mut Vec<Rec>) {
     }
 }
 
+fn gen_relin(tier: &str, rng: &mut Rng, out: &mut Vec<Rec>) {
+    let reps = if tier == "thorough" { 500 } else { 70 };
+    for _ in 0..reps {
+        let be = rng.range(1, 4) as i128;
+        let fft = be <= 2;
+        let logn = match rng.below(8) { 0 => 5, 1 | 2 => 4, _ => 3 };
+        let n = 1usize << logn;
+        let rank = rng.range(1, 2) as usize;
+        let cols = rank + 1;
+        let pairs = rank * (rank + 1) / 2;
+        let tcols = cols * (cols + 1) / 2;
+        let dsize = rng.range(1, 3) as usize;
+        let a_size = rng.range(1, 4) as usize;
+        let ab = rng.range(6, 18) as usize;
+        let same = rng.below(2) == 0;
+        // a_dft_size limbs of radix kb ; dnum rows of dsize limbs: fewer / exactly / more than the tensor has
+        let kb_try = if same { ab } else { rng.range(6, 18) as usize };
+        let adft = dceil(a_size * ab, kb_try);
+        let need = dceil(adft, dsize);
+        let dnum = match rng.below(4) { 0 => need.saturating_sub(1).max(1), 1 => need + 1, _ => need };
+        // magnitude domain of FFT64: dsize * dnum * pairs * n * 2^(2(kb-1)) < 2^50
+        let terms = (dsize * dnum * pairs * n) as u32;
+        let lt = 32 - terms.leading_zeros();
+        let kb_max = if fft { ((50 - lt) / 2 + 1) as usize } else { 24 };
+        let kb = if same { ab.min(kb_max) } else { kb_try.min(kb_max) };
+        let ab = if same { kb } else { ab };
+        let msize = (dnum * dsize).max(dsize + 1) + match rng.below(3) { 0 => 0, 1 => 1, _ => dsize };
+        let rb = match rng.below(3) { 0 => kb, 1 => ab, _ => rng.range(6, 20) as usize };
+        let res_size = rng.range(1, (msize as i64).min(5)) as usize;
+        let ps: Vec<i128> = vec![be, n as i128, rank as i128, ab as i128, kb as i128, rb as i128, a_size as i128, res_size as i128,
+                                 dsize as i128, dnum as i128, msize as i128];
+        let vs = vec![digits(rng, n * tcols * a_size, ab as u32), digits(rng, n * dnum * pairs * cols * msize, kb as u32)];
+        out.push(Rec::new(5108, ps, vs));
+    }
+}
+
 pub fn generate(tier: &str, seed: u64) -> Vec<Rec> {
     let mut rng = Rng::new(seed);
     let mut out = Vec::new();
     if let Some(t) = tier.strip_prefix("l2-") { gen_l2(t, &mut rng, &mut out); return out; }
     gen_hal(tier, &mut rng, &mut out);
     gen_core(tier, &mut rng, &mut out);
+    gen_relin(tier, &mut rng, &mut out);
     out
 }
 
